@@ -179,7 +179,7 @@ impl Parser {
             parameters,
             body,
             path_str,
-            class_name: class_type.arced_name(),
+            class_name: class_type.arced_bytecode_name(),
         })
     }
 }
